@@ -259,6 +259,12 @@ func (ex *Exec) mergeVals(hint string, vals []T, edges []T) T {
 type Loc interface{ String() string }
 
 type LocLocal struct{ a *ssa.Alloc }
+
+// LocCaptured: the cell of a variable captured by a closure. The code under contract never reassigns captured
+// variables inside closures, so the cell is a constant of the function (a Store through it is rejected).
+type LocCaptured struct{ fv *ssa.FreeVar }
+
+func (l LocCaptured) String() string { return "captured:" + l.fv.Name() }
 type LocGlobal struct{ g *ssa.Global }
 type LocHeapField struct {
 	ref   T
@@ -304,6 +310,9 @@ func (ex *Exec) load(st *State, l Loc) T {
 		}
 		// read before allocation in this path (hoisted): zero
 		return vc.zero(l.a.Type().(*types.Pointer).Elem())
+	case LocCaptured:
+		et := l.fv.Type().(*types.Pointer).Elem()
+		return vc.constant("cap."+sanitize(l.fv.Name()), vc.sortOf(et))
 	case LocGlobal:
 		et := l.g.Type().(*types.Pointer).Elem()
 		name := "G_" + l.g.Pkg.Pkg.Name() + "." + l.g.Name()
@@ -349,6 +358,8 @@ func (ex *Exec) store(st *State, l Loc, v T) error {
 	switch l := l.(type) {
 	case LocLocal:
 		st.locals[l.a] = ex.define(l.a.Comment, v)
+	case LocCaptured:
+		return fmt.Errorf("assignment to captured variable %s inside a closure is not modelled", l.fv.Name())
 	case LocGlobal:
 		name := "G_" + l.g.Pkg.Pkg.Name() + "." + l.g.Name()
 		ex.heapSet(st, name, ex.define(name, v))
